@@ -15,7 +15,7 @@ from . import c08
 ID = "C17"
 RULE = (
     "manifests grown batch by batch (1..B batches, each of size 0..S, empty batches included) x card bound = total + "
-    "{0,1,2} x number of CVRs in {0,total}, through each vendor's own prep_manifest; then every single valid sample "
+    "{0,1,2} x number of CVRs in {0,total} (and manifests whose DataFrame index is reversed or shifted), through each vendor's own prep_manifest; then every single valid sample "
     "number (whole range, hence injectivity), every ordered pair and (thorough, small manifests) every ordered triple "
     "through sample_from_manifest: number -> (batch row, position) must be the reference bijection (1-based Dominion, "
     "0-based Hart) with the position inside the batch's size, selection_order = position in the sample, phantom manual "
@@ -34,7 +34,16 @@ def bounds(tier):
             "vendors": ["Dominion (1-based)", "Hart (0-based)"]}
 
 
-def make_manifest(vendor, sizes):
+def make_manifest(vendor, sizes, index_kind="range"):
+    m = _make_manifest(vendor, sizes)
+    if index_kind == "reversed":  # a manifest that was sorted / filtered / concatenated keeps foreign index labels
+        m.index = list(range(len(sizes) - 1, -1, -1))
+    elif index_kind == "shifted":
+        m.index = [10 * (i + 1) for i in range(len(sizes))]
+    return m
+
+
+def _make_manifest(vendor, sizes):
     if vendor == "dominion":
         return pd.DataFrame({"Tray #": [i + 1 for i in range(len(sizes))], "Tabulator Number": [10 + i for i in range(len(sizes))],
                              "Batch Number": [i + 1 for i in range(len(sizes))], "Total Ballots": list(sizes),
@@ -60,8 +69,8 @@ def ref_cards(vendor, sizes, extra):
     return out
 
 
-def prep(vendor, sizes, bound, n_cvrs):
-    m = make_manifest(vendor, sizes)
+def prep(vendor, sizes, bound, n_cvrs, index_kind="range"):
+    m = make_manifest(vendor, sizes, index_kind)
     with warnings.catch_warnings():
         warnings.simplefilter("ignore")
         if vendor == "dominion":
@@ -69,13 +78,13 @@ def prep(vendor, sizes, bound, n_cvrs):
         return Hart.prep_manifest(m, bound, n_cvrs)
 
 
-def judge_prep(vendor, sizes, extra):
+def judge_prep(vendor, sizes, extra, index_kind="range"):
     total = sum(sizes)
     out = []
     res = None
     for n_cvrs in sorted({0, total}):
         try:
-            man, mc, ph = prep(vendor, sizes, total + extra, n_cvrs)
+            man, mc, ph = prep(vendor, sizes, total + extra, n_cvrs, index_kind)
         except Exception as e:  # noqa
             return [(f"C17|{vendor}|prep_manifest|exception|{type(e).__name__}", f"prep_manifest raised {type(e).__name__}: {str(e)[:80]} (sizes {list(sizes)}, bound {total + extra}, cvrs {n_cvrs})")], None
         if int(mc) != total or int(ph) != extra:
@@ -155,9 +164,11 @@ def run_shard(sh, rec):
                             rec.violate(key.replace("C08|", "C17|"), what, {"kind": "cvrs", "vendor": vendor, "layout": list(layout), "sample": list(sample)})
         return
     _, vendor, sizes, tier = sh
-    for extra in (0, 1, 2):
+    for extra, index_kind in ((0, "range"), (1, "range"), (2, "range"), (0, "reversed"), (0, "shifted"), (1, "reversed")):
         rec.state()
-        v, man = judge_prep(vendor, sizes, extra)
+        v, man = judge_prep(vendor, sizes, extra, index_kind)
+        if index_kind != "range":
+            rec.vac("manifests_with_foreign_index")
         rec.trans()
         rec.evals(4)
         rec.vac("refusals_checked", 2)
@@ -171,7 +182,7 @@ def run_shard(sh, rec):
         if feats:
             rec.outcome((vendor, sizes, extra))
         for key, what in v:
-            rec.violate(key, what, {"kind": "prep", "vendor": vendor, "sizes": list(sizes), "extra": extra})
+            rec.violate(key, what, {"kind": "prep", "vendor": vendor, "sizes": list(sizes), "extra": extra, "index_kind": index_kind})
         if v or man is None:
             continue
         ref = ref_cards(vendor, sizes, extra)
@@ -185,12 +196,14 @@ def run_shard(sh, rec):
             rec.trans()
             rec.evals()
             rec.trace()
+            if index_kind != "range" and len(sample) > 1:
+                continue  # foreign index labels: every single number is enough
             if len(sample) == 2:
                 rec.vac("pairs_looked_up")
             rec.vac("phantom_cards_looked_up", sum(1 for s in sample if ref[s][4]))
             rec.observe((vendor, sizes, extra, sample, [k for k, _ in lv]))
             for key, what in lv:
-                rec.violate(key, what, {"kind": "lookup", "vendor": vendor, "sizes": list(sizes), "extra": extra, "sample": list(sample)})
+                rec.violate(key, what, {"kind": "lookup", "vendor": vendor, "sizes": list(sizes), "extra": extra, "sample": list(sample), "index_kind": index_kind})
         if rec.want_sample((vendor, sizes, extra)):
             rec.sample({"vendor": vendor, "batch_sizes": list(sizes), "phantom_batch": extra, "numbers -> (row,tab,batch,position,phantom)": {str(k): list(v) for k, v in ref.items()}})
 
@@ -209,7 +222,7 @@ def run_case(case):
     if case["kind"] == "cvrs":
         return [(k.replace("C08|", "C17|"), w) for k, w in c08.judge_vendor(case["vendor"], tuple(case["layout"]), case["sample"])]
     sizes = tuple(case["sizes"])
-    v, man = judge_prep(case["vendor"], sizes, case["extra"])
+    v, man = judge_prep(case["vendor"], sizes, case["extra"], case.get("index_kind", "range"))
     if case["kind"] == "prep" or man is None:
         return v
     return judge_lookup(case["vendor"], sizes, case["extra"], man, tuple(case["sample"]))
